@@ -1,4 +1,8 @@
 //@include prelude/header.rs
+// v3 PROBE COPY of units/handlers_nav2.rs (composition with unit uri_glue): the ONLY differences are the include of
+// prelude/lsp_backend.rs (uri_path := op_uri_to_path, path_uri(c, p) := op_path_to_uri(c.m(), p), UriCache = the real
+// Arc around the DashMap shim) and the `impl Backend { //@stub uri_glue uri_to_path / path_to_uri }` block.  Nothing else
+// had to change; every function verifies as before (+19 lemmas of prelude/uri_l2.rs).
 // Unit handlers_nav2: call_hierarchy.rs handle_outgoing_calls + find_parameter_ranges and inlay_hint.rs
 // handle_inlay_hint under contract (same method as unit handlers_nav; split off because these two compose with the
 // per-file view / resolve_fixture_for_file contracts of unit available: prelude/avail_spec.rs, avail_l2.rs).
@@ -51,6 +55,12 @@ use pre::*;
 //@include prelude/handlers_spec.rs
 //@include prelude/handlers2_spec.rs
 //@include prelude/handlers2_l2.rs
+
+// Backend::uri_to_path / path_to_uri (src/providers/mod.rs): the contracts PROVED on the real bodies in unit uri_glue
+impl Backend {
+//@stub uri_glue uri_to_path
+//@stub uri_glue path_to_uri
+}
 
 impl FixtureDatabase {
     pub open spec fn byfix(&self) -> Map<Seq<char>, Seq<(PV, UseV)>> { byfix_view(self.usage_by_fixture.m()) }
